@@ -200,7 +200,15 @@ static rc::Gen<TecmpRecipe> genFrame(int tier)
         else if (inc == 2)
         {
             size_t full = r.build().size();
-            r.cutAt = *range<int32_t>(0, static_cast<int32_t>(full));
+            // anywhere, inside the first bytes behind the TECMP header (where the payload's own header sits), or just before the end
+            const int32_t fullI = static_cast<int32_t>(full);
+            const int32_t hdr = static_cast<int32_t>(wire::kTecmpHeader);
+            r.cutAt = *rc::gen::weightedOneOf<int32_t>({{2, range<int32_t>(0, fullI)},
+                                                        {2, range<int32_t>(std::min(hdr, fullI), std::min(hdr + 40, fullI))},
+                                                        {1, range<int32_t>(std::max(0, fullI - 4), fullI)}});
+            // half of them with a declared payload length that matches the shortened buffer
+            if (r.cutAt >= hdr && *range<int>(0, 1) == 0)
+                r.payloadLength = r.cutAt - hdr;
         }
         else if (inc == 3)
             r.payloadLength = *rc::gen::weightedOneOf<int32_t>({{1, rc::gen::just<int32_t>(0)}, {1, range<int32_t>(0, 80)}, {1, rc::gen::element<int32_t>(0xFFFF, 0x8000, 1000)}});
